@@ -1580,6 +1580,157 @@ def part_reply_functions(cx: Ctx):
                     res.disagree("reply function 0..254 to an open request vs Model.Txn", {"case": case, "line": line[:800]}, ans[:400], list(want_m))
 
 
+# ---------------------------------------------------------------------------------------------- (x) isolation of endpoints, bursts - WITHOUT the tap
+class PlainRig:
+    """real HsmsProtocol over MemConn with NOTHING replaced inside the protocol (the tap swaps queues and would hide sharing / bounds)"""
+
+    def __init__(self, name, t3=2.0):
+        self.name = name
+        self.settings = Settings(connect_mode=secsgem.hsms.HsmsConnectMode.PASSIVE, t3=t3)
+        self.p = secsgem.hsms.HsmsProtocol(self.settings)
+        self.c = self.p._connection
+        self.events = []
+        self.ev_lock = threading.Lock()
+        self.gate = None  # (system, Event, max wait): the handler of that message blocks
+        self.p.events.message_received += self._on_message
+
+    def _on_message(self, data):
+        h = data["message"].header
+        with self.ev_lock:
+            self.events.append((h.system, tag_of(h)))
+        g = self.gate
+        if g is not None and g[0] == h.system:
+            g[1].wait(g[2])
+
+    feed = Rig.feed
+    connect = Rig.connect
+
+    def got(self):
+        with self.ev_lock:
+            return list(self.events)
+
+
+SHARED_ATTRS = [("_response_queues", None), ("_incomplete_messages", None), ("_send_queue", None), ("_receive_buffer", None),
+                ("_system_counter_lock", None), ("_thread", None), ("_thread", "_dispatch_queue"), ("_thread", "_receiver_thread_trigger"),
+                ("_thread", "_dispatcher_thread_trigger"), ("_receive_buffer", "_buffer"), ("_receive_buffer", "_buffer_lock"), ("_event_producer", None)]
+
+
+def part_isolation_and_burst(cx: Ctx):
+    res = cx.res
+    import secsgem.secsi
+    # ---- structural probe: two fresh protocol objects share no mutable attribute
+    def fresh(kind):
+        if kind == "hsms":
+            return secsgem.hsms.HsmsProtocol(Settings(connect_mode=secsgem.hsms.HsmsConnectMode.PASSIVE))
+
+        class S(secsgem.secsi.SecsISettings):
+            def create_connection(self_inner):
+                return SerialMem(self_inner)
+        return secsgem.secsi.SecsIProtocol(S(port="P"))
+
+    for kind in ("hsms", "secsi"):
+        a, b = fresh(kind), fresh(kind)
+        shared = []
+        for outer, inner in SHARED_ATTRS:
+            try:
+                xa, xb = getattr(a, outer), getattr(b, outer)
+                if inner is not None:
+                    xa, xb = getattr(xa, inner), getattr(xb, inner)
+            except AttributeError:
+                continue
+            if xa is xb:
+                shared.append(outer + ("." + inner if inner else ""))
+        res.count(("isolation-probe", kind), nontrivial=False)
+        if shared:
+            res.violate("c06-cross-endpoint", f"two fresh {kind} protocol objects share mutable state: " + ", ".join(shared),
+                        {"part": "isolation", "variant": "structural probe", "transport": kind, "shared": shared}, [], shared)
+    # ---- two independent endpoints alive and busy at the same time
+    a, b = PlainRig("A"), PlainRig("B")
+    if not (a.connect() and b.connect()):
+        res.notes.append("isolation: could not select both endpoints")
+        return
+    ga, gb = threading.Event(), threading.Event()
+    a.gate, b.gate = (930000, ga, 3.0), (940000, gb, 3.0)
+    outs = {}
+
+    def request(rig, key, fn):
+        try:
+            outs[key] = rig.p.send_and_waitfor_response(Fn(1, fn))
+        except BaseException as exc:  # noqa: BLE001
+            outs[key] = exc
+
+    ta = threading.Thread(target=request, args=(a, "A", 1), daemon=True)
+    tb = threading.Thread(target=request, args=(b, "B", 3), daemon=True)
+    ta.start()
+    tb.start()
+    limit = time.time() + 2
+    while time.time() < limit and not (a.c.data_systems() and b.c.data_systems()):
+        time.sleep(0.002)
+    if not (a.c.data_systems() and b.c.data_systems()):
+        res.violate("c06-request-hang", "request never reached the wire", {"part": "isolation"})
+        return
+    ka, kb = a.c.data_systems()[0][0], b.c.data_systems()[0][0]
+    # both applications go into a callback, then traffic for both arrives interleaved (primaries and the two replies)
+    a.feed(data_msg(930000, 6, 11))
+    b.feed(data_msg(940000, 6, 11))
+    time.sleep(0.05)
+    for i in range(1, 6):
+        a.feed(data_msg(930000 + i, 6, 11 + 2 * i))
+        b.feed(data_msg(940000 + i, 6, 11 + 2 * i))
+        if i == 2:
+            a.feed(data_msg(ka, 1, 2))
+            b.feed(data_msg(kb, 1, 4))
+    time.sleep(0.1)
+    ga.set()
+    gb.set()
+    ta.join(3.0)
+    tb.join(3.0)
+    limit = time.time() + 2
+    while time.time() < limit and (len(a.got()) < 6 or len(b.got()) < 6):
+        time.sleep(0.005)
+    time.sleep(0.05)
+    want_a = [(930000 + i, 6 * 256 + 11 + 2 * i) for i in range(6)]
+    want_b = [(940000 + i, 6 * 256 + 11 + 2 * i) for i in range(6)]
+    ra, rb = outs.get("A"), outs.get("B")
+    case = {"part": "isolation", "variant": "two endpoints busy at the same time", "A_application": a.got(), "B_application": b.got(),
+            "A_request": repr(ra) if isinstance(ra, BaseException) else show_result(ra), "B_request": repr(rb) if isinstance(rb, BaseException) else show_result(rb)}
+    res.count(("isolation", "two-endpoints"), sample=case)
+    problems = []
+    if a.got() != want_a or b.got() != want_b:
+        problems.append("a message did not reach (exactly once, in order) the application of the endpoint it was sent to")
+    if isinstance(ra, BaseException) or ra is None or ra.header.system != ka or ra.header.function != 2:
+        problems.append("endpoint A's requester did not get its reply")
+    if isinstance(rb, BaseException) or rb is None or rb.header.system != kb or rb.header.function != 4:
+        problems.append("endpoint B's requester did not get its reply")
+    if problems:
+        res.violate("c06-cross-endpoint", "two independent endpoints in one process: " + "; ".join(problems), case,
+                    {"A": want_a, "B": want_b}, {"A": a.got(), "B": b.got()})
+    # ---- burst: more inbound blocks than any sensible queue bound while the application is busy
+    for n in ((40, 200) if cx.big else (40,)):
+        r = PlainRig("burst")
+        if not r.connect():
+            return
+        g = threading.Event()
+        r.gate = (950000, g, 5.0)
+        for i in range(n):
+            r.feed(data_msg(950000 + i, 6, 1 + 2 * (i % 100)))
+        time.sleep(0.15)
+        g.set()
+        want = [(950000 + i, 6 * 256 + 1 + 2 * (i % 100)) for i in range(n)]
+        limit = time.time() + 4
+        while time.time() < limit and len(r.got()) < n:
+            time.sleep(0.005)
+        time.sleep(0.05)
+        got = r.got()
+        res.count(("burst", n), sample={"part": "burst", "messages": n, "delivered": len(got)})
+        res.bump("burst_behind_a_busy_handler", f"{n} messages -> {len(got)} delivered")
+        if got != want:
+            missing = [w[0] for w in want if w not in got]
+            res.violate("c06-burst-lost", f"{n} inbound messages received while the application was busy with the first one: not all were handed to the "
+                        "application exactly once, in order", {"part": "burst", "messages": n, "delivered": len(got), "first_missing": missing[:5]},
+                        n, len(got))
+
+
 # ---------------------------------------------------------------------------------------------- static tie: the SECS-I routing branch
 def part_static_tie(cx: Ctx):
     """the harness drives HSMS; the SECS-I endpoint shares Protocol.send_and_waitfor_response and has its own copy of the routing branch:
@@ -1681,6 +1832,8 @@ def main():
             part_bad_frame_in_the_middle(cx)
         if want("reply-functions"):
             part_reply_functions(cx)
+        if want("isolation") or want("burst"):
+            part_isolation_and_burst(cx)
         if replay_classes:
             res.violations = [v for v in res.violations if v["class"] in replay_classes]  # "does the recorded failure still fail"
     except Exception as exc:  # noqa: BLE001
